@@ -373,8 +373,8 @@ func Search(seq Sequence, query Sequence) []Segment {
 		return nil
 	}
 
-	s := bytes.ToLower(seq.Bytes())
-	sep := bytes.ToLower(query.Bytes())
+	s := toLowerASCII(seq.Bytes())
+	sep := toLowerASCII(query.Bytes())
 
 	indices := bytesIndexAll(s, sep)
 	segments := make([]Segment, len(indices))
